@@ -350,7 +350,11 @@ def run_child(src, env):
     try:
         p = subprocess.run([PY, '-c', src], capture_output=True, text=True, timeout=60, env=env)
     except subprocess.TimeoutExpired:
-        return dict(result='timeout')
+        # on a loaded machine the import alone can take that long: a real hang is still one after five more minutes
+        try:
+            p = subprocess.run([PY, '-c', src], capture_output=True, text=True, timeout=300, env=env)
+        except subprocess.TimeoutExpired:
+            return dict(result='timeout')
     if p.returncode != 0:
         return dict(result='crash', rc=p.returncode, stderr=p.stderr[-800:])
     try:
